@@ -55,7 +55,11 @@ class Lexer(object):
 
     @TOKEN(r"[\-\+]?\d+")
     def t_INT(self, t):
-        t.value = int(t.value)
+        try:
+            t.value = int(t.value)
+        except ValueError:
+            # e.g. more digits than the interpreter is willing to convert
+            raise SyntaxError("Invalid number {0} at position {1}".format(t.value[:20], t.lexpos))
         return t
 
     @TOKEN(r'("(\\.|[^"\\])*")|(\'(\\.|[^\'\\])*\')')
